@@ -6,8 +6,59 @@ import "fmt"
 // and sidx(id, off, k) == sbyte(id, off+k) so that quantifier triggers bind the logical index k
 // directly (z3 normalises (+ off (- n 1)) and a trigger (select A (+ off k)) would never match).
 
+// peelOffset splits an offset term built by Add(base, d1), Add(Add(base,d1),d2)... into the
+// innermost base and the sum of the added displacements, so that all views of the same backing
+// array use the same accessor base (a sub-slice x[1:] indexes idx(A, off, 1+j), which matches
+// quantified facts stated over idx(A, off, k)).
+func peelOffset(off, i Term) (Term, Term) {
+	for len(off.S) > 3 && off.S[:3] == "(+ " {
+		// split "(+ a b)" at top level
+		body := off.S[3 : len(off.S)-1]
+		depth := 0
+		cut := -1
+		for k := 0; k < len(body); k++ {
+			switch body[k] {
+			case '(':
+				depth++
+			case ')':
+				depth--
+			case ' ':
+				if depth == 0 && cut < 0 {
+					cut = k
+				}
+			}
+		}
+		if cut < 0 {
+			break
+		}
+		a, b := body[:cut], body[cut+1:]
+		// only binary sums are produced by Add
+		d := 0
+		binary := true
+		for k := 0; k < len(b); k++ {
+			switch b[k] {
+			case '(':
+				d++
+			case ')':
+				d--
+			case ' ':
+				if d == 0 {
+					binary = false
+				}
+			}
+		}
+		if !binary {
+			break
+		}
+		off = Term{a, SInt}
+		i = Add(Term{b, SInt}, i)
+	}
+	return off, i
+}
+
 func (e *Enc) elemAt(inner Term, off, i Term) Term {
 	es := elemSortOf(inner.Sort)
+	off, i = peelOffset(off, i)
 	if off.S == "0" {
 		return Select(inner, i)
 	}
@@ -21,6 +72,7 @@ func (e *Enc) elemAt(inner Term, off, i Term) Term {
 
 func (e *Enc) strAt(id, off, i Term) Term {
 	e.declareFun("sbyte", []string{"Int", "Int"}, "Int")
+	off, i = peelOffset(off, i)
 	if off.S == "0" {
 		return app(SInt, "sbyte", id, i)
 	}
